@@ -553,6 +553,13 @@ class Randomizer(RandIF):
             lint=0,
             solve_fail_debug=0):
         failed = True
+        # A call may be made from a callback of another call that is still
+        # in progress (e.g. on a sub-object, from post_randomize): the 
+        # in-use state of the enclosing call is put back afterwards
+        used_rand_l = []
+        visited = set()
+        for f in field_model_l:
+            Randomizer._collect_used_rand(f, used_rand_l, visited)
         try:
             Randomizer._do_randomize(
                 randstate,
@@ -572,6 +579,23 @@ class Randomizer(RandIF):
                 ConstraintOverrideRollbackVisitor.rollback(f)
                 Randomizer._release_solver_handles(f, visited, failed)
                 f.set_used_rand(False, 0)
+            for f,used in used_rand_l:
+                f.is_used_rand = used
+
+    @staticmethod
+    def _collect_used_rand(fm, used_rand_l, visited):
+        """Records which fields of a field tree (which may be cyclic) are
+        marked as in-use random"""
+        if id(fm) in visited:
+            return
+        visited.add(id(fm))
+        if hasattr(fm, "is_used_rand"):
+            used_rand_l.append((fm, fm.is_used_rand))
+        if isinstance(fm, FieldCompositeModel):
+            for f in fm.field_l:
+                Randomizer._collect_used_rand(f, used_rand_l, visited)
+            if isinstance(fm, FieldArrayModel):
+                Randomizer._collect_used_rand(fm.size, used_rand_l, visited)
 
     @staticmethod
     def _release_solver_handles(fm, visited, failed=False):
